@@ -378,6 +378,20 @@ def run_kani_group(prop_id, scratch, harnesses, features=None, cbmc_args=None, j
 def _run_kani_group(prop_id, scratch, harnesses, features=None, cbmc_args=None, jobs=None, timeout_s=1800, mem_gb=12,
                     extra_flags=None, key=None):
     """run `cargo kani` once for a list of harness names; returns list of per-harness result dicts"""
+    # every invocation works on its OWN copy of the (already injected) scratch crate: the crate's
+    # build.rs rewrites README.md in the package directory, so concurrent cargo runs in one
+    # directory race (one reads the file while another has truncated it -> build script panic)
+    base = scratch
+    scratch = os.path.join(base, "_k_" + re.sub(r"[^A-Za-z0-9_.]", "_", key or prop_id))
+    if os.path.isdir(scratch):
+        shutil.rmtree(scratch, ignore_errors=True)
+    os.makedirs(scratch)
+    for name in ("Cargo.toml", "Cargo.lock", "build.rs", "README.md"):
+        if os.path.exists(os.path.join(base, name)):
+            shutil.copy2(os.path.join(base, name), os.path.join(scratch, name))
+    for name in ("src", "examples", "benches"):
+        if os.path.isdir(os.path.join(base, name)):
+            shutil.copytree(os.path.join(base, name), os.path.join(scratch, name))
     env, tdir = kani_env(key or prop_id)
     out_json = os.path.join(scratch, "kani-%s.json" % hashlib.md5(" ".join(harnesses).encode()).hexdigest()[:8])
     jobs = jobs or min(len(harnesses), NCPU)
